@@ -95,6 +95,49 @@ def gen_inputs(ctx, n):
     return docs[:n]
 
 
+def boundary_inputs():
+    """sweeps along the clauses of the specification that repeat or compare without a bound, which no short string reaches:
+    digit accumulation of numeric references (leading zeros, long runs, the limits of the value), and every letter-case
+    variant of the keywords the machine matches (DOCTYPE / PUBLIC / SYSTEM case-insensitively, [CDATA[ exactly).
+    -> (input, start state, last start tag, CDATA allowed)"""
+    out = []
+    for k in (0, 1, 2, 3, 4, 5, 6, 7, 8, 9, 12, 40, 300):
+        for dec, hexa in (("65", "41"), ("128512", "1F600"), ("1114111", "10FFFF"), ("1114112", "110000"), ("128", "80"),
+                          ("55296", "d800"), ("0", "0"), ("13", "D"), ("65534", "fffe")):
+            for semi in (";", "", "z"):
+                out.append(("a&#" + "0" * k + dec + semi + "b", "data", None, False))
+                out.append(("a&#x" + "0" * k + hexa + semi + "b", "data", None, False))
+                if k in (0, 6, 8, 40):
+                    out.append(('<a b="&#' + "0" * k + dec + semi + '" c=&#X' + "0" * k + hexa + semi + ">", "data", None, False))
+                    out.append(("&#" + "0" * k + dec + semi + "</title>", "rcdata", "title", False))
+    for k in (7, 8, 9, 10, 11, 20, 4299, 4300, 4301, 5000):      # digit runs that denote nothing (and int() conversion limits)
+        out.append(("&#" + "9" * k + ";", "data", None, False))
+        out.append(("&#x" + "f" * k + ";", "data", None, False))
+        out.append(("&#" + "0" * k + ";x", "data", None, False))
+
+    def cases(word):
+        vs = {word, word.lower(), word.upper(), word.swapcase(), word.title()}
+        for i in range(len(word)):
+            vs.add(word[:i] + word[i].swapcase() + word[i + 1:])
+        return sorted(vs)
+    for w in cases("DOCTYPE"):
+        out.append(("<!" + w + " html>x", "data", None, False))
+    for w in cases("PUBLIC"):
+        out.append(("<!DOCTYPE html " + w + " 'p' 's'>x", "data", None, False))
+    for w in cases("SYSTEM"):
+        out.append(("<!DOCTYPE html " + w + " 's'>x", "data", None, False))
+    for w in cases("[CDATA["):
+        out.append(("<!" + w + "x<i>]]>y", "data", None, True))
+        out.append(("<!" + w + "x<i>]]>y", "data", None, False))
+    for w in cases("script"):
+        out.append(("<!--<" + w + ">x</" + w + ">-->y</script>z", "script", "script", False))
+        out.append(("x</" + w + ">y", "script", "script", False))
+        out.append(("x</" + w + ">y", "rawtext", "script", False))
+    for w in cases("title"):
+        out.append(("x</" + w + " >y", "rcdata", "title", False))
+    return out
+
+
 def run(ctx):
     listed = [d for d in DEFECTS if d in ctx.open_keys]
     cfgs = configs(ctx.quick)
@@ -162,12 +205,14 @@ def run(ctx):
     docs = gen_inputs(ctx, 3000 if ctx.quick else 40000)
     traces = []
     starts = ["data", "data", "data", "rcdata", "rawtext", "script", "plaintext"]
-    forced = ["<!--\x00->x-->y", "<!---\x00>x-->y", "<![CDATA[a\x00b]]>", "<!--\x00", "<!---\x00-->", "<![CDATA[\x00"]
-    docs = forced + docs
+    forced = [(d, "data", None, True) for d in ("<!--\x00->x-->y", "<!---\x00>x-->y", "<![CDATA[a\x00b]]>", "<!--\x00", "<!---\x00-->", "<![CDATA[\x00")]
+    forced += boundary_inputs()
+    ctx.notes["boundary_inputs"] = len(forced)
+    docs = [f[0] for f in forced] + docs
     for i, d in enumerate(docs):
-        start = starts[i % len(starts)] if i >= len(forced) else "data"
-        last = None if start in ("data", "plaintext") else ctx.rng.choice(["x", "script", "title", "a", None])
-        cdata = (i % 5 == 0) or i < len(forced)
+        start = starts[i % len(starts)] if i >= len(forced) else forced[i][1]
+        last = (None if start in ("data", "plaintext") else ctx.rng.choice(["x", "script", "title", "a", None])) if i >= len(forced) else forced[i][2]
+        cdata = (i % 5 == 0) if i >= len(forced) else forced[i][3]
         try:
             out = realtok.real_tokenize(d, start, last, cdata, readsize=(None, None, 2, 3, 5)[i % 5])
         except Exception as e:
